@@ -7,6 +7,11 @@ val length : 'a1 list -> nat
 
 val app : 'a1 list -> 'a1 list -> 'a1 list
 
+type comparison =
+| Eq
+| Lt
+| Gt
+
 module Nat :
  sig
   val add : nat -> nat -> nat
@@ -42,6 +47,14 @@ type z =
 
 module Pos :
  sig
+  type mask =
+  | IsNul
+  | IsPos of positive
+  | IsNeg
+ end
+
+module Coq_Pos :
+ sig
   val succ : positive -> positive
 
   val add : positive -> positive -> positive
@@ -50,14 +63,59 @@ module Pos :
 
   val pred_double : positive -> positive
 
+  type mask = Pos.mask =
+  | IsNul
+  | IsPos of positive
+  | IsNeg
+
+  val succ_double_mask : mask -> mask
+
+  val double_mask : mask -> mask
+
+  val double_pred_mask : positive -> mask
+
+  val sub_mask : positive -> positive -> mask
+
+  val sub_mask_carry : positive -> positive -> mask
+
+  val mul : positive -> positive -> positive
+
+  val iter : ('a1 -> 'a1) -> 'a1 -> positive -> 'a1
+
+  val compare_cont : comparison -> positive -> positive -> comparison
+
+  val compare : positive -> positive -> comparison
+
   val eqb : positive -> positive -> bool
+
+  val coq_Nsucc_double : n -> n
+
+  val coq_Ndouble : n -> n
+
+  val coq_land : positive -> positive -> n
  end
 
 module N :
  sig
   val add : n -> n -> n
 
+  val sub : n -> n -> n
+
+  val mul : n -> n -> n
+
+  val compare : n -> n -> comparison
+
   val eqb : n -> n -> bool
+
+  val leb : n -> n -> bool
+
+  val ltb : n -> n -> bool
+
+  val div2 : n -> n
+
+  val coq_land : n -> n -> n
+
+  val shiftr : n -> n -> n
  end
 
 module Z :
@@ -118,3 +176,68 @@ val nf : bytes list -> bytes list
 val render : bool -> bytes list -> bytes
 
 val canon_spec : bytes -> bytes
+
+val in_range : byte -> byte -> byte -> bool
+
+val shell_safe : byte -> bool
+
+val needs_escaping : bytes -> bool
+
+val esc_body : bytes -> bytes
+
+val shell_escape : bytes -> bytes
+
+val make_path_list_from : byte -> bytes -> bytes list -> bytes
+
+val make_path_list : byte -> bytes list -> bytes
+
+type sh_mode =
+| ShUnq
+| ShInQ
+| ShBsl
+
+val sh_blank : byte -> bool
+
+val sh_cur_bytes : bytes option -> bytes
+
+val sh_push : bytes option -> byte -> bytes option
+
+val sh_start : bytes option -> bytes option
+
+val sh_go : sh_mode -> bytes option -> bytes -> bytes list option
+
+val sh_words : bytes -> bytes list option
+
+val jbetween : byte -> byte -> byte -> bool
+
+val hex_digit : n -> byte
+
+val json_encode_byte : byte -> bytes
+
+val json_encode : bytes -> bytes
+
+val hex_val : byte -> n option
+
+val hex4 : byte -> byte -> byte -> byte -> n option
+
+val json_simple_escape : byte -> byte option
+
+val cons_opt : byte -> bytes option -> bytes option
+
+val json_decode : bytes -> bytes option
+
+type u8_state =
+| U0
+| U1
+| U2
+| U2_E0
+| U2_ED
+| U3
+| U3_F0
+| U3_F4
+
+val u8_step : u8_state -> byte -> u8_state option
+
+val utf8_go : u8_state -> bytes -> bool
+
+val utf8_valid : bytes -> bool
